@@ -37,7 +37,7 @@ CLAIMS = {
               'history invariant "every successful Ack event is preceded by a state with no file written-and-not-synced" (acks_sound), "every file holding unsynced data is still tracked" (covered), '
               'established by FlushWorker::new (empty trace, exactly the open chunk file tracked), preserved by sync_all_files (also at its error exit: defect D7, fixed), handle_non_flush_request and every iteration of run_inner for an ARBITRARY next request and batch split; '
               'sender side: send_flush hands over exactly the bytes buffered since the last hand-over with sync=true and the callback, rotation queues the old tail as a synced Write before AppendFile. '
-              'a failed write is never skipped over (invariant of the batch loop) and a short write whose byte count is ignored is a failed obligation; every batch produces exactly one Ack event per request that carries a callback, in request order (ack_ids(trace suffix) == cb_ids(batch)); at-most-once per callback is also Rust move semantics (Callback::send consumes self).'),
+              'every request that is not a Write (AppendFile, RemoveChunks, GetFlushStat), whether received first or deferred behind a batch, is handed to its handler before the next request is taken (ghost counters, loop invariant); a failed write is never skipped over (invariant of the batch loop) and a short write whose byte count is ignored is a failed obligation; every batch produces exactly one Ack event per request that carries a callback, in request order (ack_ids(trace suffix) == cb_ids(batch)); at-most-once per callback is also Rust move semantics (Callback::send consumes self).'),
         note=TRUST + ' Assumed: write_all/sync_data semantics (a successful fdatasync makes all earlier writes to that file durable), FIFO channel, message invariant "every Write has sync == true" (proved on the sender in U5, assumed at recv), rule E7 desugaring of try_iter().take(n) and iter().any(). Liveness (every sent request is eventually processed) is not decided.',
         technique='Verus history invariant over a ghost effect trace, on extracted code',
         design='5 C04',
